@@ -21,6 +21,7 @@ MUTANTS = [
     M("patch-cross-binding", F, "    providers.aes_cbc_decrypt = aes_cbc_decrypt\n", "    providers.aes_cbc_decrypt = aes_ecb_decrypt\n", "C20-PATCH"),
 ]
 TWINS = [
+    T("mix-columns-in-place-xtime-form", "sharepoint2text/parsing/extractors/pdf/_pypdf_aes_fallback.py", "    for col in range(4):\n        i = 4 * col\n        a0, a1, a2, a3 = state[i : i + 4]\n        state[i + 0] = _MUL2[a0] ^ _MUL3[a1] ^ a2 ^ a3\n        state[i + 1] = a0 ^ _MUL2[a1] ^ _MUL3[a2] ^ a3\n        state[i + 2] = a0 ^ a1 ^ _MUL2[a2] ^ _MUL3[a3]\n        state[i + 3] = _MUL3[a0] ^ a1 ^ a2 ^ _MUL2[a3]\n", "    for i in (0, 4, 8, 12):\n        first = state[i]\n        t = state[i] ^ state[i + 1] ^ state[i + 2] ^ state[i + 3]\n        state[i] ^= t ^ _MUL2[state[i] ^ state[i + 1]]\n        state[i + 1] ^= t ^ _MUL2[state[i + 1] ^ state[i + 2]]\n        state[i + 2] ^= t ^ _MUL2[state[i + 2] ^ state[i + 3]]\n        state[i + 3] ^= t ^ _MUL2[state[i + 3] ^ first]\n"),
     T("unpad-lower-bound-zero-is-equivalent", F, "if padding < 1 or padding > block_size:", "if padding < 0 or padding > block_size:"),
     T("rename-local-in-xtime", F, "def _xtime(a: int) -> int:\n    a &= 0xFF\n    return ((a << 1) ^ 0x1B) & 0xFF if (a & 0x80) else (a << 1) & 0xFF", "def _xtime(value: int) -> int:\n    value &= 0xFF\n    return ((value << 1) ^ 0x1B) & 0xFF if (value & 0x80) else (value << 1) & 0xFF"),
     T("subbytes-shiftrows-swapped", F, "    for r in range(1, nr):\n        _sub_bytes(state)\n        _shift_rows(state)", "    for r in range(1, nr):\n        _shift_rows(state)\n        _sub_bytes(state)"),
@@ -44,5 +45,6 @@ SEEDED = [
     ("C20-10", "C20-LEN"),
     ("C20-11", "C20-WRAP"),
     ("C20-13", "C20-LEN"),
+    ("C20-12", "C20-MIX"),
 ]
 MUTANTS = list(MUTANTS) + [_P("seed-" + sid, _os.path.join(_SEEDS, sid, "patch.diff"), rule) for sid, rule in SEEDED if _os.path.exists(_os.path.join(_SEEDS, sid, "patch.diff"))]
